@@ -14,7 +14,7 @@ use crate::token::ui_token::{UiTokenType};
 pub fn percent_regex_parser(config: &SmartCalcConfig, tokinizer: &mut Tokinizer, group_item: &[Regex]) {
     for re in group_item.iter() {
         for capture in re.captures_iter(&tokinizer.data.to_owned()) {
-            let number = match capture.name("NUMBER").unwrap().as_str().replace(&config.thousand_separator[..], "").replace(&config.decimal_seperator[..], ".").parse::<f64>() {
+            let number = match capture.name("NUMBER").unwrap().as_str().replace(&tokinizer.thousand_separator[..], "").replace(&tokinizer.decimal_seperator[..], ".").parse::<f64>() {
                 Ok(number) => number,
                 _ => continue
             };
